@@ -180,6 +180,15 @@ def g_c15(tier, seed):
                 samples=[dict(n=15, val_prop=0.1)], failures=fails[:5], errors=[])
 
 
+@grid("C05")
+def g_c05(tier, seed):
+    cnt = []
+    fails = rt.rt_c05(tier, count=cnt)
+    return dict(evaluations=cnt[0] if cnt else 0, distinct_nontrivial=cnt[0] if cnt else 0,
+                rule="real families (Normal, Cauchy, Laplace, Logistic, Gumbel, StudentT, LogNormal, Uniform, Exponential, MultivariateNormal, VmapMixture) with loc/scale/df broadcasting against each other (event shape (2,3)), points inside / at the edge of / outside the support, accessors; reference scipy.stats in float64; -inf required outside the support, NaN never",
+                samples=[dict(family="Uniform", point="outside")], failures=fails[:5], errors=[])
+
+
 @grid("C17")
 def g_c17(tier, seed):
     cnt = []
